@@ -8,7 +8,7 @@ const NAMES: &[&str] = &[
     "_G", "print", "string", "i", "k", "v", "obj", "é",
 ];
 const FIELDS: &[&str] = &["x", "y", "sqrt", "floor", "profilebegin", "profileend", "m", "new", "len"];
-const MULTIBYTE: &[&str] = &["é", "€", "𝄞", "\u{feff}", "\u{a0}", "\u{2028}", "ß", "漢"];
+const MULTIBYTE: &[&str] = &["é", "€", "𝄞", "\u{feff}", "\u{a0}", "\u{2028}", "ß", "漢", "²", "٣", "½", "③", "\u{301}"];
 
 /// string contents, one or more per boundary class tested by the rules and the evaluator
 pub const CLASS_CONTENTS: &[&str] = &[
@@ -558,6 +558,10 @@ impl<'r> Gen<'r> {
                 self.out.push('`');
                 let parts = 1 + self.rng.below(3);
                 for i in 0..parts {
+                    if self.rng.chance(1, 2) {
+                        let segment = random_segment(self.rng);
+                        self.out.push_str(&segment);
+                    }
                     let literal = self.interp_literal();
                     self.out.push_str(literal);
                     if i + 1 < parts || self.rng.chance(1, 2) {
@@ -568,6 +572,10 @@ impl<'r> Gen<'r> {
                 }
                 let literal = self.interp_literal();
                 self.out.push_str(literal);
+                if self.rng.chance(1, 2) {
+                    let segment = random_segment(self.rng);
+                    self.out.push_str(&segment);
+                }
                 self.out.push('`');
                 self.ws();
             }
@@ -1113,4 +1121,55 @@ pub fn configuration(rules: &[Value], generator: &str, span: usize, bundle: bool
         config["bundle"] = json!({"require_mode": "path"});
     }
     config.to_string()
+}
+
+// ---- round 4: escapes -------------------------------------------------------------------
+
+/// what may follow a backslash: one representative per Unicode predicate / category the
+/// string reader could confuse (numeric but not ASCII digit, letters, separators, format
+/// characters, marks, symbols) and every ASCII class the reader dispatches on
+pub const AFTER_BACKSLASH: &[&str] = &[
+    "²", "٣", "½", "③", "Ⅷ", "൧", "𝟙", "é", "€", "ß", "\u{a0}", "\u{2028}", "\u{2029}", "\u{feff}", "\u{301}", "\u{200d}", "😀", "漢",
+    "\u{85}", "\u{7f}", "q", "'", "\"", "`", "{", "}", "\\", "\n", "\r\n", " ", "\t", "0", "7", "9", "12", "255", "256", "999", "0012",
+    "x", "x4", "xZZ", "x41", "u", "u{", "u{}", "u{41}", "u{110000}", "u{D800}", "u{FFFFFFFFF}", "z", "z\n  ", "a", "b", "f", "n", "r", "t", "v", "",
+];
+
+/// every string form holding `\` + `after`: quoted, interpolated (alone, before and after a
+/// value), singleton string types — one tiny program each
+pub fn escape_programs(after: &str) -> Vec<String> {
+    vec![
+        format!("return '\\{}'", after),
+        format!("return \"\\{}\"", after),
+        format!("return `\\{}`", after),
+        format!("return `\\{}{{x}}`", after),
+        format!("return `{{x}}\\{}`", after),
+        format!("return `a\\{}b{{x}}c\\{}`", after, after),
+        format!("type T = '\\{}'", after),
+        format!("type T = \"\\{}\"", after),
+        format!("local t = {{ ['\\{}'] = `\\{}` }}", after, after),
+    ]
+}
+
+/// interpolated strings whose literal parts hold an ESCAPED backslash in the positions where
+/// writing it unescaped changes the string: at the end of the part (before the closing
+/// backtick or a `{`), before `x` / `u` / `z` / a quote / a newline letter, before digits
+pub const BACKSLASH_SEGMENT_TEXTS: &[&str] = &[
+    "return `C:\\\\games\\\\`\n",
+    "return `a\\\\{x}b\\\\`\n",
+    "return `{x}\\\\`\n",
+    "return `\\\\`\n",
+    "return `\\\\x41 \\\\u{41} \\\\z \\\\n`\n",
+    "return `\\\\300 \\\\999 \\\\12`\n",
+    "return `\\\\\\\\ \\\\' \\\\\"`\n",
+    "local s = `path\\\\to\\\\{name}\\\\file`\nreturn s .. `\\\\{s}`\n",
+    "return `plain ascii only`, `tab\\\\t`, `é\\\\`\n",
+    "f(`\\\\u`, `\\\\x`, `\\\\{1}\\\\x`, `{1}\\\\u{2}`)\n",
+];
+
+/// a literal part drawn from an alphabet that contains the escaped backslash
+pub fn random_segment(rng: &mut Rng) -> String {
+    const ITEMS: &[&str] = &[
+        "a", "Z", " ", "0", "3", "9", "x", "u", "z", "n", ":", "/", "é", "\\\\", "\\\\", "\\\\", "\\`", "\\{", "\\n", "'", "\"", "-", "}", "]]",
+    ];
+    (0..rng.below(7)).map(|_| *rng.pick(ITEMS)).collect()
 }
